@@ -218,6 +218,7 @@ func (r *FeatureLocal) ApproveOrDenyWrite(msg *api.Message, err model.ErrorType)
 	timer, ok := r.pendingWriteApprovals[ski][*msg.RequestHeader.MsgCounter]
 	count := len(r.writeApprovalCallbacks)
 	r.muxResponseCB.Unlock()
+	verifYield("ApproveOrDenyWrite.looked-up")
 
 	// if there is no timer running, we are too late and error has already been sent
 	if !ok || timer == nil {
